@@ -459,8 +459,23 @@ def build_negative(tier, seed):
     posa = Crate("pos_apitwin_0", kind="pos")
     pre = [l[4:] if l.startswith("    ") else l for l in API_PRELUDE.strip("\n").split("\n")]
     pimp = ["u2", "u3", "u4", "u5", "u6", "u12"]
-    nega.add({"kind": "raw", "mod": "api", "name": "_prelude", "path": "api::_prelude", "lines": pre, "imports": pimp})
-    posa.add({"kind": "raw", "mod": "api", "name": "_prelude", "path": "api::_prelude", "lines": pre, "imports": pimp})
+    # one raw item per prelude declaration, so that a declaration that stops compiling is quarantined alone
+    import re
+    chunks = []
+    cur = []
+    for l in pre:
+        if l.startswith("/// ") and cur and cur[-1] == "}":
+            chunks.append(cur)
+            cur = []
+        if l.strip() or cur:
+            cur.append(l)
+    if cur:
+        chunks.append(cur)
+    for n, ch in enumerate(chunks):
+        names = re.findall(r"pub (?:struct|enum) (\w+)", "\n".join(ch))
+        for cr in (nega, posa):
+            cr.add({"kind": "raw", "mod": "api", "name": names[0] if names else "_prelude%d" % n, "path": "api::_prelude%d" % n, "lines": list(ch),
+                    "imports": pimp if n == 0 else [], "defines": names})
     for i, (prop, clause, bad, good) in enumerate(api_cases()):
         nega.add(raw_item("api", "n%d" % i, ["/// must not compile: %s" % clause, "pub fn n%d() {" % i, "    " + bad, "}"], prop, clause, expect_code="E0599"))
         posa.add({"kind": "raw", "mod": "api", "name": "p%d" % i, "path": "api::p%d" % i, "prop": prop, "clause": clause,
